@@ -216,7 +216,7 @@ func checkC18(c *hx.Checker) {
 	c.Rule = "seeds: mlp.onnx, scaler.onnx, gru.onnx, mnist-8-opset13.onnx, the zip sample, 47 generated tiny models (every initializer type x encoding at rank 2, every type at rank 0 and 1, mixed attribute kinds, LSTM, Conv) and ndm.onnx; " +
 		"byte faults: EVERY truncation offset and EVERY single-byte substitution by {all 256 values for seeds < 700 B (thorough: < 2 KiB); 0x00,0x01,0x7f,0x80,0xff,b^1,b^0x80 otherwise}; ndm.onnx: 4096 evenly spread truncation offsets + substitutions at 2048 offsets; " +
 		"structural faults on the decoded proto of every seed: each initializer dims entry -> {-1,0,1,d-1,d+1,2^31,2^62}, data_type -> 0..22,99, raw payload +-1 byte / empty, names emptied / duplicated, node inputs/outputs shortened, value-info dims perturbed, graph removed; " +
-		"opset imports: every version in {-1,0..25,2^31,2^63-1} alone, with an ai.onnx.ml import before/after, duplicated, and no import at all; operator types: each registered name and 120 unregistered names placed first / middle / last in a 3-node graph. " +
+		"opset imports: every version in {-1,0..25,2^31,2^63-1} alone, with an ai.onnx.ml import before/after, duplicated, and no import at all; operator types: each registered name and 120 unregistered names placed first / middle / last in a 3-node graph and off the path to the declared output (dead branch listed after / before the producing node, unread consumer of the output, node without inputs, node without outputs). " +
 		"each faulted string goes through NewModelFromBytes under recover() and, when it loads, one Run under recover() (Run panics are counted, not judged: the statement is about loading). non-trivial = every faulted string"
 	c.Assumptions = []string{"'loads iff the highest imported version is 13' is the statement's rule, whatever the domain of the import", "a Run panic of a corrupted-but-loadable model is outside the statement and only counted (run_panics)"}
 	type job struct {
@@ -413,6 +413,26 @@ func checkC18(c *hx.Checker) {
 			o := [3]string{"Relu", "Relu", "Relu"}
 			o[pos] = n
 			jobs = append(jobs, job{chain(o), "op-error", fmt.Sprintf("optype/%q@%d", n, pos), []string{"optype", "unknown-operator"}})
+		}
+	}
+	// the unsupported node off the path to the declared outputs: a dead branch listed after / before the node that
+	// produces the output, a consumer of the output whose own result nobody reads, a node without inputs
+	for _, n := range nonRegisteredOnnxOps {
+		if reg[n] {
+			continue
+		}
+		x := []*onnx.ValueInfoProto{hx.ValueInfo("x", ref.F32, hx.FixedDims([]int{2, 2}))}
+		y := []*onnx.ValueInfoProto{hx.ValueInfoNoShape("y")}
+		relu := hx.Node("Relu", []string{"x"}, []string{"y"}, nil)
+		for name, nodes := range map[string][]*onnx.NodeProto{
+			"dead-branch-last":  {relu, hx.Node(n, []string{"x"}, []string{"dead"}, nil)},
+			"dead-branch-first": {hx.Node(n, []string{"x"}, []string{"dead"}, nil), relu},
+			"unread-consumer":   {relu, hx.Node(n, []string{"y"}, []string{"z"}, nil)},
+			"no-inputs-last":    {relu, hx.Node(n, nil, []string{"k"}, nil)},
+			"no-outputs-last":   {relu, hx.Node(n, []string{"y"}, nil, nil)},
+		} {
+			g := &onnx.GraphProto{Name: "g", Input: x, Node: nodes, Output: y}
+			jobs = append(jobs, job{hx.Marshal(hx.Model(g, 13)), "op-error", fmt.Sprintf("optype/%q/%s", n, name), []string{"optype", "unknown-operator", "off-output-path"}})
 		}
 	}
 	c.ParallelFor(len(jobs), func(i int) {
